@@ -210,10 +210,22 @@ def gen_configs(ctx, n):
     return out
 
 
+def anchor_cases():
+    """Fixed, seed independent witnesses of the known extend-split resume defect (plain and after save/restore); run first in every run."""
+    es = {"strategy": "extend", "a": [0.0, 0.0], "b": [1.0, 1.0], "norm": "inf", "lmax": 2, "grid": {"type": "Trapezoidal", "boundary": True},
+          "opts": {"version": 0, "number_of_refinements_before_extend": 2}}
+    base = {"kind": "case", "cfg": es, "comps": [["corner", [1.0, 3.0]]], "ref": None, "final": {"tol": -1.0, "max": 120, "min": 1},
+            "interrupt": {"tol": -1.0, "max": 20, "min": 1}, "probe": [[0.3, 0.6], [0.71, 0.12]], "index": 0}
+    return [dict(base, save=False), dict(base, save=True)]
+
+
 def run(ctx):
     dc = _dc()
     ctx.exhaustive = False
     quick = ctx.quick()
+    for case in anchor_cases():
+        ctx.case(case, nontrivial=True)
+        check_case(ctx, case)
     rounds = 0
     while True:
         for cfg in gen_configs(ctx, 10 if quick else 40):
